@@ -6,6 +6,10 @@ from .errors import JSSyntaxError
 from .values import as_double
 
 
+# ECMAScript LineTerminator: LF, CR, LS, PS (CR LF is one line break)
+_LINE_TERMINATORS = "\n\r\u2028\u2029"
+
+
 def _is_digit(ch: str) -> bool:
     """ECMAScript DecimalDigit: ASCII 0-9 only (str.isdigit accepts every Unicode digit)."""
     return "0" <= ch <= "9"
@@ -40,7 +44,7 @@ class Lexer:
             return ""
         ch = self.source[self.pos]
         self.pos += 1
-        if ch == "\n":
+        if ch in _LINE_TERMINATORS and not (ch == "\r" and self._current() == "\n"):
             self.line += 1
             self.column = 1
         else:
@@ -53,7 +57,7 @@ class Lexer:
             ch = self._current()
 
             # Whitespace (including vertical tab and form feed)
-            if ch in " \t\r\n\x0b\x0c":
+            if ch in " \t\x0b\x0c" or ch in _LINE_TERMINATORS:
                 self._advance()
                 continue
 
@@ -61,7 +65,7 @@ class Lexer:
             if ch == "/" and self._peek() == "/":
                 self._advance()  # /
                 self._advance()  # /
-                while self._current() and self._current() != "\n":
+                while self._current() and self._current() not in _LINE_TERMINATORS:
                     self._advance()
                 continue
 
@@ -111,7 +115,7 @@ class Lexer:
                     raise JSSyntaxError(
                         "Octal escape sequences are not allowed", self.line, self.column
                     )
-                elif escape == "\n":
+                elif escape in "\n\u2028\u2029":
                     pass  # line continuation
                 elif escape == "\r":
                     if self._current() == "\n":
@@ -164,7 +168,7 @@ class Lexer:
                 else:
                     # Unknown escape - just use the character
                     result.append(escape)
-            elif ch == "\n":
+            elif ch in "\n\r":
                 raise JSSyntaxError(
                     "Unterminated string literal", self.line, self.column
                 )
@@ -478,12 +482,12 @@ class Lexer:
                 raise JSSyntaxError("Unterminated regex literal", line, column)
             ch = self._current()
 
-            if ch == "\\" and self._peek() not in ("", "\n"):
+            if ch == "\\" and (self._peek() == "" or self._peek() in _LINE_TERMINATORS):
+                raise JSSyntaxError("Unterminated regex literal", line, column)
+            elif ch == "\\":
                 # Escape sequence - include both characters
                 pattern.append(self._advance())
                 pattern.append(self._advance())
-            elif ch == "\\":
-                raise JSSyntaxError("Unterminated regex literal", line, column)
             elif ch == "[":
                 in_char_class = True
                 pattern.append(self._advance())
@@ -494,7 +498,7 @@ class Lexer:
                 # End of pattern
                 self._advance()
                 break
-            elif ch == "\n":
+            elif ch in _LINE_TERMINATORS:
                 raise JSSyntaxError("Unterminated regex literal", line, column)
             else:
                 pattern.append(self._advance())
